@@ -14,6 +14,12 @@ mono      lines of the grid load scale x R_z x P_A (one axis varies, the others 
           P_A = 0.5 reports N_10/N_50/N_90, which must be ordered.
 
 The oracle is differential / metamorphic: pyLife against itself along another path.  No reference model.
+
+Violation keys name the input class / cause where the check can tell it from the failing case itself:
+C10/praj-class-limits-batch-max (batch: the point's P_RAJ class limit differs from its single run),
+C10/batch-lut-class-edge and C10/monotone-scale-lut-class-edge/... (template loads exactly on an edge of the notch
+look-up table), .../P_RAJ-lifetime-class-discretisation (the pair is monotone again with 5000 instead of 200 P_RAJ
+classes), C10/refinement-junction-... (inserted sample at the border between the two HCM passes).
 """
 import contextlib
 import io
@@ -30,7 +36,7 @@ ID = "C10"
 LEVEL = "exploration"
 RULE = ("complete enumeration of (template, parameter set) x {ordered ratio selections x G mode | single insertions "
         "| grid lines}; one case = one batch call / one refined sequence / one grid line.  non-trivial = batch with "
-        ">= 2 points of different load ratio of which >= 1 has finite life; refinement whose unrefined sequence has "
+        ">= 2 points that differ in load ratio or G of which >= 1 has finite life; refinement whose unrefined sequence has "
         "finite P_RAM and P_RAJ life; grid line with >= 2 different finite lifetimes")
 ASSUMPTIONS = [
     "differential oracle: a single-point call (plain Series, scalar G) is taken as the meaning of 'the point's "
@@ -47,9 +53,10 @@ RTOL = 1e-9
 # ---------------------------------------------------------------------------------------------------------------
 # the finite space
 # ---------------------------------------------------------------------------------------------------------------
-# name -> loads [N].  'junction' says whether the border between pass 1 and pass 2 is benign by construction:
-# first sample != 0, last sample is a reversal of the repeated sequence, differs from the first sample and does
-# not lie between 0 and the first sample, no leading/trailing plateau.
+# name -> loads [N].  Except for 'leading0' (first sample 0) and 'repeated' (leading plateau) the border between
+# pass 1 and pass 2 is benign by construction: the last sample is a reversal of the repeated sequence, differs from
+# the first sample and does not lie between 0 and the first sample, no trailing plateau.  Refinements that put
+# a sample AT that border are keyed apart (C10/refinement-junction-...).
 TEMPLATES = {
     "guideline":  [100, -200, 100, -250, 200, 0, 200, -200],          # FKM nonlinear 2.7.1 / 2.10.1
     "constamp":   [251, -120, 251, -120, 251, -120],                   # constant amplitude with mean load
@@ -82,14 +89,42 @@ PARAMS = {
     "alu-lognormal":  _ps(MatGroupFKM="Al_wrought", R_m=350, R_z=25, P_A=1e-3, P_L=2.5, s_L=None, LSD_s=0.02, K_p=2.0, c=0.8),
     "cast-blanket":   _ps(MatGroupFKM="SteelCast", R_m=600, R_z=100, P_A=1e-5, P_L=2.5, s_L=None, K_p=2.5, c=1.2),
 }
-RATIOS_Q = (0.8, 1.0, 1.3)
-RATIOS_T = (0.3, 0.8, 1.0, 1.3)
-G_OF_RATIO = {0.3: 0.05, 0.8: 0.4, 1.0: 0.1, 1.3: 0.8}       # per-point stress gradients
-G_LABELS = {0.3: 3, 0.8: 5, 1.0: 8, 1.3: 9}                 # index labels of the G series (arbitrary by contract)
+# load ratios of co-assessed points: far below the endurance limit (infinite life), just above the P_RAJ endurance
+# limit of the template (smallest multiple of 0.01 with finite P_RAJ life under 'steel-normal': the hysteresis
+# classes then lie next to the class of the endurance limit), the template itself, and well above
+NEAR_ENDURANCE = {"guideline": 0.53, "constamp": 0.61, "nested": 0.47, "leading0": 0.53, "nonrev": 0.51, "repeated": 0.53}
+ROLES_Q = ("low", "near", "high")
+ROLES_T = ("low", "near", "mid", "high")
+# per-point stress gradients [1/mm].  For G below about 4/mm the fracture mechanics support factor n_bm is clamped
+# to 1 for these materials and G has no effect at all; 5, 20 give n_bm = 1.04, 1.37 (Steel, R_m = 500).
+G_OF_ROLE = {"low": 0.1, "near": 5.0, "mid": 20.0, "high": 2.0}
+G_BY_POSITION = (0.1, 20.0, 5.0)                            # ... for batches of points with equal loads
+G_LABELS = (5, 8, 9, 3)                                     # index labels of the G series (arbitrary by contract)
+
+
+def _ratio(template, role):
+    return {"low": 0.3, "near": NEAR_ENDURANCE[template], "mid": 1.0, "high": 1.3}[role]
+
+
 P_A_LIST = (0.5, 2.3e-1, 1e-3, 7.2e-5, 1e-5, 1e-6, 1e-7)     # the tabulated list, decreasing
 RZ_LIST = (1, 25, 250)
 SCALES_Q = (1.0, 1.1, 1.5)
 SCALES_T = (1.0, 1.01, 1.02, 1.03, 1.04, 1.05, 1.06, 1.07, 1.08, 1.09, 1.1, 1.2, 1.3, 1.5, 2.0)
+
+O_TEMPLATES = tuple(t for t in T_TEMPLATES if t not in Q_TEMPLATES)
+
+
+def _plan(tier):
+    """which (parameter set, templates) are explored by which part"""
+    if tier == "quick":
+        return {"batch": [("steel-normal", Q_TEMPLATES)], "refine": [("steel-normal", Q_TEMPLATES)],
+                "mono-star": [("steel-normal", Q_TEMPLATES)], "mono-grid": [], "mono-ladder": []}
+    return {"batch": [("steel-normal", T_TEMPLATES), ("steel-nostat", Q_TEMPLATES), ("alu-lognormal", O_TEMPLATES)],
+            "refine": [("steel-normal", T_TEMPLATES), ("steel-nostat", T_TEMPLATES)],
+            "mono-grid": [("steel-normal", Q_TEMPLATES)],
+            "mono-star": [("steel-normal", O_TEMPLATES), ("alu-lognormal", Q_TEMPLATES), ("cast-blanket", O_TEMPLATES)],
+            "mono-ladder": [("steel-normal", T_TEMPLATES), ("alu-lognormal", Q_TEMPLATES), ("cast-blanket", O_TEMPLATES)]}
+
 
 LIFE = ("P_RAM_lifetime_n_cycles", "P_RAJ_lifetime_n_cycles")
 VERDICT = ("P_RAM_is_life_infinite", "P_RAJ_is_life_infinite")
@@ -97,7 +132,7 @@ QUANT = tuple("%s_lifetime_N_%s" % (p, q) for p in ("P_RAM", "P_RAJ") for q in (
 
 
 def _selections(ratios, tier):
-    """ordered selections of the ratio set: all orders up to size 2 (quick) / 3 (thorough), rotations of the larger ones"""
+    """ordered selections of the role set: all orders up to size 2 (quick) / 3 (thorough), rotations of the larger ones"""
     full_orders_up_to = 2 if tier == "quick" else 3
     out = []
     for k in range(1, len(ratios) + 1):
@@ -106,23 +141,31 @@ def _selections(ratios, tier):
         else:
             for comb in itertools.combinations(ratios, k):
                 out += [comb[i:] + comb[:i] for i in range(k)]
+    # points with the same loads (they differ in G only, or not at all): no maximum over the batch differs from
+    # the point's own, so nothing that is shared by design can excuse a difference
+    out += [("mid", "mid"), ("mid", "mid", "mid")]
     return out
 
 
 def bounds(tier):
     q = tier == "quick"
+    plan = _plan(tier)
+    used = sorted({t for part in plan.values() for _, ts in part for t in ts}, key=list(TEMPLATES).index)
     return {
-        "templates": {k: TEMPLATES[k] for k in (Q_TEMPLATES if q else T_TEMPLATES)},
-        "batch": {"parameter_sets": ["steel-normal"] if q else ["steel-normal", "steel-nostat", "alu-lognormal"],
-                  "ratios": RATIOS_Q if q else RATIOS_T, "G": ["uniform", "per-point"],
-                  "selections": "all orders up to size %d, rotations above" % (2 if q else 3),
-                  "n_selections": len(_selections(RATIOS_Q if q else RATIOS_T, tier))},
-        "refine": {"parameter_sets": ["steel-normal"] if q else ["steel-normal", "steel-nostat"],
+        "templates": {k: TEMPLATES[k] for k in used},
+        "parameter_sets": {k: {kk: vv for kk, vv in PARAMS[k].items()} for k in sorted({ps for part in plan.values() for ps, _ in part})},
+        "batch": {"parameter_set x templates": plan["batch"],
+                  "ratios": {t: [_ratio(t, r) for r in (ROLES_Q if q else ROLES_T)] for t in used},
+                  "G": ["uniform", "per-point %r" % (G_OF_ROLE,)],
+                  "selections": "all orders up to size %d, rotations above, plus (1,1) and (1,1,1)" % (2 if q else 3),
+                  "n_selections": len(_selections(ROLES_Q if q else ROLES_T, tier))},
+        "refine": {"parameter_set x templates": plan["refine"],
                    "insertions": "repeat / midpoint in every cyclic gap, wrap-around gap on both sides"
-                                 + ("" if q else "; plus all pairs of interior insertions for templates of length <= 8")},
-        "mono": {"parameter_sets": ["steel-normal"] if q else ["steel-normal", "alu-lognormal", "cast-blanket"],
-                 "scale": SCALES_Q if q else SCALES_T, "R_z": RZ_LIST, "P_A": P_A_LIST,
-                 "grid": "star through the base point" if q else "all lines of scale{1,1.1,1.5} x R_z x P_A + fine scale ladder at the base point"},
+                                 + ("" if q else "; plus all pairs of interior insertions for templates of length <= 8 (steel-normal)")},
+        "mono": {"star through the base point (parameter_set x templates)": plan["mono-star"],
+                 "all lines of the grid scale x R_z x P_A": plan["mono-grid"],
+                 "fine scale ladder at the base point": plan["mono-ladder"],
+                 "scale": SCALES_Q, "fine_scale_ladder": SCALES_T, "R_z": RZ_LIST, "P_A": P_A_LIST},
         "rtol": RTOL,
     }
 
@@ -153,7 +196,7 @@ def _assess(params, loads, ratios=None, g=None):
         ls = pd.Series(vals, index=idx, dtype=float)
         if g is not None:
             if isinstance(g, (list, tuple)):
-                p["G"] = pd.Series([float(x) for x in g], index=pd.Index([G_LABELS.get(r, 100 + i) for i, r in enumerate(ratios)], name="anyname"))
+                p["G"] = pd.Series([float(x) for x in g], index=pd.Index(list(G_LABELS[:n]), name="anyname"))
             else:
                 p["G"] = float(g)
     with contextlib.redirect_stdout(io.StringIO()), warnings.catch_warnings():
@@ -202,7 +245,7 @@ def check_batch(case, cache=None):
     loads, params = TEMPLATES[case["template"]], PARAMS[case["params"]]
     ratios = [float(r) for r in case["ratios"]]
     per_point = case["gmode"] == "per-point"
-    gs = [G_OF_RATIO[r] for r in ratios] if per_point else None
+    gs = [float(g) for g in case["gs"]] if per_point else None
     calls = 0
     viol = []
     singles = []
@@ -230,6 +273,10 @@ def check_batch(case, cache=None):
             continue
         if not (s["P_RAM_is_life_infinite"][0] and s["P_RAJ_is_life_infinite"][0]):
             finite += 1
+        # Loads that sit exactly on an edge of the notch look-up table are put into the class above or below by
+        # floating point rounding, and in a batch the FIRST node's rounding decides for all nodes.  This shows in
+        # P_RAM already (P_RAM has no other batch-wide quantity); such points are keyed apart.
+        edge = on_lut_edge(loads) and not _same(s[LIFE[0]][0], b[LIFE[0]][i])
         for k in LIFE + VERDICT + QUANT:
             if k not in s and k not in b:
                 continue
@@ -237,14 +284,14 @@ def check_batch(case, cache=None):
                 viol.append(("C10/batch/%s-missing" % k, {"in_single": k in s, "in_batch": k in b}))
                 continue
             if not _same(s[k][0], b[k][i]):
-                key = "C10/batch/" + k
-                if k == "P_RAJ_lifetime_n_cycles" and "_klass_max" in s and "_klass_max" in b \
+                key = "C10/batch-lut-class-edge" if edge else "C10/batch/" + k
+                if not edge and k.startswith("P_RAJ_lifetime") and "_klass_max" in s and "_klass_max" in b \
                         and not _same(s["_klass_max"][0], b["_klass_max"][i]):
                     key = "C10/praj-class-limits-batch-max"
-                viol.append((key, {"point": i, "ratio": ratios[i], "single": s[k][0], "batch": b[k][i],
+                viol.append((key, {"observable": k, "point": i, "ratio": ratios[i], "single": s[k][0], "batch": b[k][i],
                                    "klass_max_single": s.get("_klass_max", [None])[0],
                                    "klass_max_batch": b.get("_klass_max", [None] * len(ratios))[i]}))
-    nontrivial = len(set(ratios)) >= 2 and finite >= 1
+    nontrivial = len(ratios) >= 2 and (len(set(ratios)) >= 2 or per_point) and finite >= 1
     outcome = tuple((k, tuple(_r(x) for x in b[k])) for k in LIFE + VERDICT if k in b)
     return _first_per_key(viol), calls, nontrivial, outcome
 
@@ -380,7 +427,7 @@ def check_line(case):
         if err is not None:
             viol.append(("C10/monotone-%s/raises-%s" % (axis, err.split(":")[0]), {"value": v, "error": err}))
         res.append(r)
-    calls = len(values)
+    calls_extra = [0]
     edge = axis == "scale" and on_lut_edge(loads)
     ax = "scale-lut-class-edge" if edge else axis
     for fam, lk, vk in (("P_RAM", LIFE[0], VERDICT[0]), ("P_RAJ", LIFE[1], VERDICT[1])):
@@ -393,8 +440,23 @@ def check_line(case):
                 if math.isnan(la) or math.isnan(lb):
                     viol.append(("C10/monotone-%s/%s-lifetime-nan" % (axis, fam), {"at": [values[i], values[j]], "lifetimes": [la, lb]}))
                 elif lb > la * (1 + RTOL):
-                    viol.append(("C10/monotone-%s/%s-lifetime" % (ax, fam),
-                                 {"milder": values[i], "harsher": values[j], "lifetime_milder": la, "lifetime_harsher": lb}))
+                    key = "C10/monotone-%s/%s-lifetime" % (ax, fam)
+                    detail = {"milder": values[i], "harsher": values[j], "lifetime_milder": la, "lifetime_harsher": lb}
+                    if fam == "P_RAJ" and not edge and key not in [k for k, _ in viol]:
+                        # is it the coarseness of the guideline's 200 P_RAJ classes?  repeat the pair with 5000 classes
+                        fine = []
+                        for v in (values[i], values[j]):
+                            co = dict(fixed)
+                            co[axis] = v
+                            p = dict(params)
+                            p["R_z"], p["P_A"], p["n_bins"] = co["R_z"], co["P_A"], 5000
+                            r5, err = _try(_assess, p, _scaled(loads, co["scale"]))
+                            calls_extra[0] += 1
+                            fine.append(None if r5 is None else r5[lk][0])
+                        detail["lifetimes_with_5000_classes"] = fine
+                        if None not in fine and not fine[1] > fine[0] * (1 + RTOL):
+                            key += "-class-discretisation"
+                    viol.append((key, detail))
                 if b[vk][0] and not a[vk][0]:
                     viol.append(("C10/monotone-%s/%s-verdict" % (ax, fam),
                                  {"milder": values[i], "harsher": values[j], "infinite_milder": a[vk][0], "infinite_harsher": b[vk][0]}))
@@ -412,31 +474,33 @@ def check_line(case):
     lifes = {_r(r[LIFE[0]][0]) for r in res if r is not None and math.isfinite(r[LIFE[0]][0])}
     nontrivial = len(lifes) >= 2
     outcome = (axis,) + tuple(tuple(_r(r[k][0]) for k in LIFE + VERDICT) if r is not None else None for r in res)
-    return _first_per_key(viol), calls, nontrivial, outcome, nq
+    return _first_per_key(viol), len(values) + calls_extra[0], nontrivial, outcome, nq
 
 
 def _lines(tier):
-    q = tier == "quick"
+    plan = _plan(tier)
     out = []
-    for t in (Q_TEMPLATES if q else T_TEMPLATES):
-        for ps in (("steel-normal",) if q else ("steel-normal", "alu-lognormal", "cast-blanket")):
+
+    def add(t, ps, axis, vals, fx):
+        out.append({"kind": "mono", "template": t, "params": ps, "axis": axis, "values": list(vals),
+                    "fixed": {k: v for k, v in fx.items() if k != axis}})
+
+    axes = (("scale", SCALES_Q), ("R_z", RZ_LIST), ("P_A", P_A_LIST))
+    for ps, ts in plan["mono-star"]:
+        for t in ts:
             base = {"scale": 1.0, "R_z": PARAMS[ps]["R_z"], "P_A": PARAMS[ps]["P_A"]}
-            if q:
-                combos = {"scale": [base], "R_z": [base], "P_A": [base]}
-            elif ps == "steel-normal":
-                grid = [{"scale": s, "R_z": z, "P_A": p} for s in SCALES_Q for z in RZ_LIST for p in P_A_LIST]
-                combos = {"scale": [g for g in grid if g["scale"] == 1.0], "R_z": [g for g in grid if g["R_z"] == 1],
-                          "P_A": [g for g in grid if g["P_A"] == 0.5]}
-            else:
-                combos = {"scale": [base], "R_z": [base], "P_A": [base]}
-            for axis, vals in (("scale", SCALES_Q), ("R_z", RZ_LIST), ("P_A", P_A_LIST)):
-                for fx in combos[axis]:
-                    fixed = {k: v for k, v in fx.items() if k != axis}
-                    out.append({"kind": "mono", "template": t, "params": ps, "axis": axis, "values": list(vals), "fixed": fixed})
-            if not q:
-                # fine ladder of scale factors at the base point (split so that a shard stays short)
-                fixed = {"R_z": base["R_z"], "P_A": base["P_A"]}
-                out.append({"kind": "mono", "template": t, "params": ps, "axis": "scale", "values": list(SCALES_T), "fixed": fixed})
+            for axis, vals in axes:
+                add(t, ps, axis, vals, base)
+    for ps, ts in plan["mono-grid"]:
+        for t in ts:
+            grid = [{"scale": sc, "R_z": z, "P_A": p} for sc in SCALES_Q for z in RZ_LIST for p in P_A_LIST]
+            for axis, vals in axes:
+                for g in grid:
+                    if g[axis] == vals[0]:
+                        add(t, ps, axis, vals, g)
+    for ps, ts in plan["mono-ladder"]:
+        for t in ts:
+            add(t, ps, "scale", SCALES_T, {"R_z": PARAMS[ps]["R_z"], "P_A": PARAMS[ps]["P_A"]})
     return out
 
 
@@ -445,21 +509,28 @@ def _lines(tier):
 # ---------------------------------------------------------------------------------------------------------------
 def shards(tier):
     q = tier == "quick"
-    templates = Q_TEMPLATES if q else T_TEMPLATES
+    plan = _plan(tier)
     out = []
     # batch: one shard per (template, parameter set, G mode, selection size) - singles are cached inside a shard
-    ratios = RATIOS_Q if q else RATIOS_T
-    sel = _selections(ratios, tier)
-    for t in templates:
-        for ps in (("steel-normal",) if q else ("steel-normal", "steel-nostat", "alu-lognormal")):
+    sel = _selections(ROLES_Q if q else ROLES_T, tier)
+    for ps, ts in plan["batch"]:
+        for t in ts:
             for gmode in ("uniform", "per-point"):
-                for size in sorted({len(s) for s in sel}):
-                    cases = [{"kind": "batch", "template": t, "params": ps, "gmode": gmode, "ratios": list(s)} for s in sel if len(s) == size]
+                for size in sorted({len(x) for x in sel}):
+                    cases = []
+                    for roles in sel:
+                        if len(roles) != size:
+                            continue
+                        case = {"kind": "batch", "template": t, "params": ps, "gmode": gmode, "ratios": [_ratio(t, r) for r in roles]}
+                        if gmode == "per-point":
+                            equal = len(set(roles)) == 1 and len(roles) > 1
+                            case["gs"] = [G_BY_POSITION[i] if equal else G_OF_ROLE[r] for i, r in enumerate(roles)]
+                        cases.append(case)
                     for i in range(0, len(cases), 8):
                         out.append(cases[i:i + 8])
     # refinement
-    for t in templates:
-        for ps in (("steel-normal",) if q else ("steel-normal", "steel-nostat")):
+    for ps, ts in plan["refine"]:
+        for t in ts:
             ins = insertions(TEMPLATES[t])
             cases = [{"kind": "refine", "template": t, "params": ps, "insertions": [list(i)]} for i in ins]
             if not q and ps == "steel-normal" and len(TEMPLATES[t]) <= 8:
@@ -471,7 +542,6 @@ def shards(tier):
     # monotone lines
     for line in _lines(tier):
         out.append([line])
-    # longest shards first would balance better, but simplest-first is the contract: batches of one point come first
     return out
 
 
